@@ -196,7 +196,38 @@ def q_big(a, b, ctx):
                 return
 
 
-HELPERS = ["compat", "equiv", "to_units", "prepare", "link", "publish", "prepare_m", "publish_m", "link_m", "link_t", "big"]
+def _decimal(u):
+    """unit whose SI factor is a power of ten without offset (prefix scalings: exact in pint for any dtype)"""
+    import math
+
+    dim, fac, off = hu.CATALOGUE[u]
+    return off == 0.0 and dim != hu.T and abs(math.log10(fac) - round(math.log10(fac))) < 1e-12
+
+
+def q_ints(a, b, ctx):
+    """integer-typed payloads (counts, class codes, scaled sensor values in int16 / int32 / int64) between units that
+    differ by a power of ten: the converted numbers are the physical conversion, whatever dtype they come in"""
+    import finam as fm
+    from finam.data import tools
+
+    if not hu.compatible(a, b) or not (_decimal(a) and _decimal(b)):
+        return
+    for dt in (np.int16, np.int32, np.int64):
+        x = np.array([0, 1, -3, 100, 12345], dtype=dt)
+        exp = x.astype(float) if hu.equivalent(a, b) else hu.convert(x.astype(float), a, b)
+        try:
+            r = tools.to_units(tools.UNITS.Quantity(x.copy(), a), b)
+            p = tools.prepare(tools.UNITS.Quantity(x.copy(), a), fm.Info(time=hs.T0, grid=fm.NoGrid(1), units=b))
+        except Exception as e:  # pylint: disable=broad-except
+            ctx.violation("int-raw-error", f"conversion of {dt.__name__} values {a!r} -> {b!r}: {type(e).__name__}: {e}")
+            return
+        for name, got in (("to_units", np.asarray(r.magnitude)), ("prepare", np.asarray(p.magnitude)[0])):
+            if got.shape != exp.shape or not _close(got.astype(float), exp):
+                ctx.violation(f"{name}-values-integer-dtype", f"{name} of {dt.__name__} {x.tolist()} {a!r} -> {b!r} gives {got.tolist()}, the physical conversion is {exp.tolist()}")
+                return
+
+
+HELPERS = ["compat", "equiv", "to_units", "prepare", "link", "publish", "prepare_m", "publish_m", "link_m", "link_t", "big", "ints"]
 
 
 def run_query(q, ctx):
@@ -224,6 +255,8 @@ def run_query(q, ctx):
         q_link(a, b, ctx, flipped=True)
     elif h == "big":
         q_big(a, b, ctx)
+    elif h == "ints":
+        q_ints(a, b, ctx)
 
 
 def check_pair(case, ctx):
